@@ -73,17 +73,18 @@ def law_ident(ba: int, bb: int, ca: int, cb: int) -> bool:
     return H.verdict(_law(_build(["a", "é"], [ba, bb]), _build(["a", "é"], [ca, cb])))
 
 
-ODD = ["a.b", ".", "", "a.", "a"]
+BS = chr(92)
+ODD = ["a.b", ".", "", "a.", "a", BS, "a" + BS, BS + ".", BS + BS]
 
 
 @H.ob(model="none", quick=300, thorough=600,
       targets=("clematis/engine/util/snapshot_delta.py:compute_delta", "clematis/engine/util/snapshot_delta.py:apply_delta"),
-      bounds="one top-level key chosen by symbolic index from {'a.b', '.', '', 'a.', 'a'} plus the plain key 'a' holding a nested dict whose inner key is again chosen from that alphabet; top-level values from the value alphabet or absent, nested values from {1, {x:1}, absent}, on both sides",
-      split={"ki": [0, 1, 2, 3, 4], "kn": [0, 1, 2, 3, 4]},
-      note="C07.a round-trip law for keys with dots / empty strings (top level and nested)")
+      bounds="one top-level key chosen by symbolic index from 9 odd keys (dots, empty, trailing dot, the escape character itself: backslash, trailing backslash, backslash-dot, double backslash) plus the plain key 'n' holding a nested dict whose inner key is again chosen from that alphabet; top-level values from the value alphabet or absent, nested values from {1, {x:1}, {x:2}, {x:1,y:{z:1}}, absent} on both sides (so changes BELOW an odd key occur)",
+      split={"ki": list(range(9)), "kn": list(range(9))},
+      note="C07.a round-trip law for keys with dots / empty strings / backslashes (top level and nested, with changes below them)")
 def law_odd_keys(ki: int, kn: int, bv: int, cv: int, bn: int, cn: int) -> bool:
     """
-    pre: 0 <= ki <= 4 and 0 <= kn <= 4 and 0 <= bv <= NV and 0 <= cv <= NV and 0 <= bn <= 2 and 0 <= cn <= 2
+    pre: 0 <= ki <= 8 and 0 <= kn <= 8 and 0 <= bv <= NV and 0 <= cv <= NV and 0 <= bn <= 4 and 0 <= cn <= 4
     post: _
     """
     vals = _vals()
@@ -92,10 +93,10 @@ def law_odd_keys(ki: int, kn: int, bv: int, cv: int, bn: int, cn: int) -> bool:
         base[ODD[ki]] = copy.deepcopy(vals[bv])
     if cv < NV:
         cur[ODD[ki]] = copy.deepcopy(vals[cv])
-    nested = [1, {"x": 1}]
-    if bn < 2:
+    nested = [1, {"x": 1}, {"x": 2}, {"x": 1, "y": {"z": 1}}]
+    if bn < 4:
         base.setdefault("n", {})[ODD[kn]] = copy.deepcopy(nested[bn])
-    if cn < 2:
+    if cn < 4:
         cur.setdefault("n", {})[ODD[kn]] = copy.deepcopy(nested[cn])
     return H.verdict(_law(base, cur))
 
@@ -132,8 +133,9 @@ def law_open_keys(base: Dict[str, int], cur: Dict[str, int]) -> bool:
 
 
 # ----------------------------------------------------------------------------- C07.c reader / writer fallback
-FULL_A = {"version_etag": "A", "store": {"w": 1}, "k": {"x": 1}}
-FULL_B = {"version_etag": "B", "store": {"w": 2}, "k": {"y": 2}}
+# "keep" is identical on both sides: a delta applied to a wrong or empty base cannot reproduce it
+FULL_A = {"version_etag": "A", "store": {"w": 1}, "k": {"x": 1}, "keep": {"z": [1, 2]}, "n": 7}
+FULL_B = {"version_etag": "B", "store": {"w": 2}, "k": {"y": 2}, "keep": {"z": [1, 2]}, "n": 7}
 
 
 class FakeDir:
